@@ -109,20 +109,28 @@ def c18_random_history(rng):
 
 
 def c18_reload_history(rng):
-    """join_returns, write, read back, continue on the re-read graph: its generator's events."""
+    """Run a stage prefix, write, read back, continue with the remaining stages on
+    the re-read graph: the events of its (fresh) generator, and whether any input
+    block got lost on the way."""
     from numba_scfg.core.datastructures.scfg import SCFG
 
-    succ = gen_graphs.random_closed(rng, rng.randrange(3, 9))
+    succ = gen_graphs.random_closed(rng, rng.randrange(3, 12))
     sc = stages.make_scfg(succ)
-    sc.join_returns()
+    orig = export.original_of(sc)
+    k = rng.randrange(0, 3)
+    for st in stages.STAGES[:k + 1]:
+        getattr(sc, st)()
     d = sc.to_dict()
     with Recorder() as rec:
         sc2, _ = SCFG.from_dict(d)
+        exc = None
         try:
-            sc2.restructure()
-        except Exception:
-            pass
-        return rec.events, list(sc2.name_gen.kinds.items())
+            for st in stages.STAGES[k + 1:]:
+                getattr(sc2, st)()
+        except Exception as e:
+            exc = repr(e)[:200]
+        lost = {"reason": "raises", "detail": exc} if exc else pysim.find_cons_violation(orig, sc2)
+        return rec.events, list(sc2.name_gen.kinds.items()), lost, succ, stages.STAGES[k]
 
 
 def c18_pipeline_history(succ, rename=None):
@@ -210,8 +218,11 @@ def check_c18(pid, tier, build, props):
             cases.append((h[0], h[1], "api-history"))
     for _ in range(40 if quick else 400):
         try:
-            ev, ks = c18_reload_history(rng)
+            ev, ks, lost, succ_, after = c18_reload_history(rng)
             cases.append((ev, ks, "write-read-continue"))
+            if lost:
+                violations.append({"graph": succ_, "written_after": after, "witness": lost,
+                                   "class": "continuing on a re-read graph"})
         except Exception as e:
             problems.append("reload history raised in the harness: %r" % (e,))
             break
